@@ -224,6 +224,6 @@ Export == phase = "done" =>
                              discm |-> IF Paired(c) THEN Ids(Mates, out.disc) ELSE <<>>]
       [] c.tool = "annot" -> [tool |-> "annot", opts |-> c.opts, out |-> out]
       [] c.tool = "dist" -> [tool |-> "dist", D |-> c.D, files |-> [f \in DOMAIN out |-> Ids(Data, out[f])]]
-      [] c.tool = "mux"  -> [tool |-> "mux", set |-> c.D.n, kept |-> out.kept, disc |-> out.disc])>>,
+      [] c.tool = "mux"  -> [tool |-> "mux", set |-> c.D.n, nkept |-> out.kept, ndisc |-> out.disc])>>,
     IOEnv.VERIF_CASES)
 =============================================================================
